@@ -148,6 +148,9 @@ func drawStoreCfg(r *simkit.Run) cfg {
 		c.BigPayload = 0
 	case "C09":
 		c.Ops = 2 + tp.Intn(6)
+		if r.Tier == "thorough" {
+			c.Ops = 3 + tp.Intn(12)
+		}
 		c.Crash = tp.Intn(6) != 1
 		if !c.Crash {
 			c.Ops = 10 + tp.Intn(20)
@@ -179,7 +182,8 @@ type world struct {
 	disk *simDisk
 	eng  *Engine
 
-	useFS vfs.FS
+	useFS          vfs.FS
+	openingPrimary bool
 
 	mu    sync.Mutex // guards step and every channel's acked/states (read from disk gate)
 	step  int
@@ -187,6 +191,7 @@ type world struct {
 
 	nextID   uint64
 	avoidIDs map[uint64]bool // ids already used by another channel of the current call / group
+	bulk     bool            // generating a bulk append of distinct keys (filter saturation)
 	liveIDs  map[uint64]idLoc
 	graveIDs []uint64
 	cmdSeq   uint64
@@ -221,6 +226,7 @@ func (quietLogger) Fatalf(format string, args ...interface{}) {
 }
 
 func (w *world) hook(o *pebble.Options) {
+	primary := w.openingPrimary
 	o.FS = w.useFS
 	o.MemTableSize = uint64(w.c.MemTable)
 	o.CacheSize = int64(w.c.CacheKB) << 10
@@ -229,8 +235,16 @@ func (w *world) hook(o *pebble.Options) {
 	o.DisableTableStats = true
 	o.Experimental.ReadSamplingMultiplier = -1
 	o.EventListener = &pebble.EventListener{
-		FlushEnd:      func(pebble.FlushInfo) { w.flushes.Add(1) },
-		CompactionEnd: func(pebble.CompactionInfo) { w.compactions.Add(1) },
+		FlushEnd: func(pebble.FlushInfo) {
+			if primary {
+				w.flushes.Add(1)
+			}
+		},
+		CompactionEnd: func(pebble.CompactionInfo) {
+			if primary {
+				w.compactions.Add(1)
+			}
+		},
 		BackgroundError: func(err error) {
 			w.bgMu.Lock()
 			w.bgErrs = append(w.bgErrs, err.Error())
@@ -276,6 +290,7 @@ func (w *world) stop() bool { return w.r.Failed() || w.tainted || w.r.InfraErr !
 // openOn opens a message engine on fs exactly as production does.
 func (w *world) openOn(fs vfs.FS, configure bool) (*Engine, error) {
 	w.useFS = fs
+	w.openingPrimary = configure
 	eng, err := Open("/db")
 	if err != nil {
 		return nil, err
